@@ -393,8 +393,14 @@ def r14(ctx, rep):
     # role: the (last, rest) pair of `split_last()`
     last = rest = None
     for n in walk(f["body"]):
+        # `if let Some((last, rest)) = pipeline.split_last()`, `let Some((last, rest)) = .. else`, or `match pipeline.split_last() { Some((last, rest)) => .. }`
+        pats = []
         if n.get("k") in ("let", "local") and "split_last" in show(n.get("e") or n.get("init") or {}, maxdepth=6):
-            names = [x["n"] for x in walk(n["pat"]) if x.get("k") == "p_ident"]
+            pats = [n["pat"]]
+        elif n.get("k") == "match" and "split_last" in show(n["e"], maxdepth=6):
+            pats = [a_["pat"] for a_ in n["arms"]]
+        for p_ in pats:
+            names = [x["n"] for x in walk(p_) if x.get("k") == "p_ident" and not x["n"][0].isupper()]
             if len(names) == 2:
                 last, rest = names
     if last is None:
